@@ -33,6 +33,10 @@ pub enum CertKind {
     ViewerThenOperatorInChain,
     /// the role-less client certificate followed by an unrelated certificate with a role
     RoleLessThenOperatorInChain,
+    /// self-signed mode: another certificate with the pinned certificate's subject (new key)
+    SameSubjectOtherKey,
+    /// self-signed mode: the pinned key and subject re-issued with another validity (other bytes)
+    SameKeyReissued,
 }
 
 pub const CERT_KINDS: [CertKind; 7] = [
@@ -55,6 +59,10 @@ pub struct Cell {
     pub cert: CertKind,
     /// use the spawn_* constructor instead of create_*
     pub spawn: bool,
+    /// how the client configuration is built: 0 = `full_pki(Some(name))` / `self_signed`,
+    /// 1 = the legacy `TlsClientConfig::new(name, .., mode)`, 2 = `full_pki(None)` (no expected name)
+    #[serde(default)]
+    pub ctor: u8,
 }
 
 #[derive(Clone, Debug, PartialEq, Eq)]
@@ -89,6 +97,10 @@ fn certs_for(c: &Cell) -> Option<(&'static str, &'static str)> {
         (false, true, Expired) => ("ss_server_expired", "ss_server_expired"),
         (false, true, NotYetValid) => ("ss_server_future", "ss_server_future"),
         (true, true, IssuedByPinned) => ("ss_client", "cli_child_of_ss"),
+        (true, true, SameSubjectOtherKey) => ("ss_client", "ss_client_same_subject"),
+        (true, true, SameKeyReissued) => ("ss_client", "ss_client_same_key"),
+        (false, true, SameSubjectOtherKey) => ("ss_server", "ss_server_same_subject"),
+        (false, true, SameKeyReissued) => ("ss_server", "ss_server_same_key"),
         (true, false, ViewerThenOperatorInChain) => ("ca_a", "cli_viewer+cli_operator"),
         (true, false, RoleLessThenOperatorInChain) => ("ca_a", "cli_norole+cli_operator"),
         (false, true, IssuedByPinned) => ("ss_server", "srv_child_of_ss"),
@@ -109,6 +121,8 @@ pub fn ref_tls(c: &Cell) -> Option<Expectation> {
     let cert_ok = match c.cert {
         CertKind::Valid | CertKind::OtherRole | CertKind::ViewerThenOperatorInChain => true,
         CertKind::RoleLess | CertKind::RoleLessThenOperatorInChain => !(c.rodbus_is_server && c.authz),
+        // no expected name configured: any server that chains to the authority is valid
+        CertKind::WrongName => !c.rodbus_is_server && !c.self_signed && c.ctor == 2,
         _ => false,
     };
     let role = if c.rodbus_is_server && c.authz && version_ok && cert_ok {
@@ -277,10 +291,13 @@ impl Listener<ClientState> for States {
 async fn run_client_cell(c: &Cell) -> Result<Observed, String> {
     let (trust, present) = certs_for(c).unwrap();
     let local = if c.self_signed { "ss_client" } else { "cli_operator" };
-    let cfg = if c.self_signed {
+    #[allow(deprecated)]
+    let cfg = if c.ctor == 1 {
+        TlsClientConfig::new("test.com", &cert_path(trust), &cert_path(local), &key_path(local), None, min_version(c), mode(c))
+    } else if c.self_signed {
         TlsClientConfig::self_signed(&cert_path(trust), &cert_path(local), &key_path(local), None, min_version(c))
     } else {
-        TlsClientConfig::full_pki(Some("test.com".to_string()), &cert_path(trust), &cert_path(local), &key_path(local), None, min_version(c))
+        TlsClientConfig::full_pki(if c.ctor == 2 { None } else { Some("test.com".to_string()) }, &cert_path(trust), &cert_path(local), &key_path(local), None, min_version(c))
     }
     .map_err(|e| format!("TlsClientConfig: {e}"))?;
     let (listener, addr) = listen("127.0.0.1").await;
@@ -441,7 +458,7 @@ pub fn all_cells(spawn: bool) -> Vec<Cell> {
                 for rodbus_is_server in [true, false] {
                     for peer in [PeerVersions::Tls12Only, PeerVersions::Tls13Only, PeerVersions::Both] {
                         for cert in CERT_KINDS {
-                            v.push(Cell { min13, self_signed, authz, rodbus_is_server, peer, cert, spawn });
+                            v.push(Cell { min13, self_signed, authz, rodbus_is_server, peer, cert, spawn, ctor: 0 });
                         }
                     }
                 }
@@ -456,7 +473,7 @@ pub fn check_c09(tier: &str) -> i32 {
         "C09",
         tier,
         "exploration",
-        "the whole configuration grid {min version 1.2, 1.3} x {authority, self-signed} x {with, without authorization} x {rodbus is client, server} x peer offers {TLS1.2 only, TLS1.3 only, both} x peer certificate {valid, wrong authority, wrong name, expired, not yet valid, role-less, differently roled} = 336 cells over real loopback sockets: the rodbus endpoint is built with the unmodified public API, the peer is an independent rustls endpoint with explicit protocol versions and a permissive verifier, so the verdict is rodbus' alone; admission is judged by an answered Modbus request, the negotiated version by the peer, the role by an authorization handler; cells that are not meaningful are listed as n/a; per server configuration two more peers send Modbus bytes instead of / in the middle of the handshake; outside the grid: a certificate issued by the pinned self-signed certificate, and client chains in which an unrelated certificate carrying another role follows the client certificate. distinct = distinct (cell, observation) pairs",
+        "the whole configuration grid {min version 1.2, 1.3} x {authority, self-signed} x {with, without authorization} x {rodbus is client, server} x peer offers {TLS1.2 only, TLS1.3 only, both} x peer certificate {valid, wrong authority, wrong name, expired, not yet valid, role-less, differently roled} = 336 cells over real loopback sockets: the rodbus endpoint is built with the unmodified public API, the peer is an independent rustls endpoint with explicit protocol versions and a permissive verifier, so the verdict is rodbus' alone; admission is judged by an answered Modbus request, the negotiated version by the peer, the role by an authorization handler; cells that are not meaningful are listed as n/a; per server configuration two more peers send Modbus bytes instead of / in the middle of the handshake; outside the grid: a certificate issued by the pinned self-signed certificate, certificates with the pinned certificate's subject / subject and key but other bytes, client chains in which an unrelated certificate carrying another role follows the client certificate, and client configurations built with the legacy constructor and without an expected server name. distinct = distinct (cell, observation) pairs",
     );
     let thorough = rep.thorough();
     let mut cells = all_cells(false);
@@ -467,10 +484,25 @@ pub fn check_c09(tier: &str) -> i32 {
     for rodbus_is_server in [true, false] {
         for peer in [PeerVersions::Tls12Only, PeerVersions::Tls13Only, PeerVersions::Both] {
             for authz in [false, true] {
-                cells.push(Cell { min13: false, self_signed: true, authz, rodbus_is_server, peer, cert: CertKind::IssuedByPinned, spawn: false });
+                for cert in [CertKind::IssuedByPinned, CertKind::SameSubjectOtherKey, CertKind::SameKeyReissued] {
+                    cells.push(Cell { min13: false, self_signed: true, authz, rodbus_is_server, peer, cert, spawn: false, ctor: 0 });
+                }
                 if rodbus_is_server {
                     for cert in [CertKind::ViewerThenOperatorInChain, CertKind::RoleLessThenOperatorInChain] {
-                        cells.push(Cell { min13: false, self_signed: false, authz, rodbus_is_server, peer, cert, spawn: false });
+                        cells.push(Cell { min13: false, self_signed: false, authz, rodbus_is_server, peer, cert, spawn: false, ctor: 0 });
+                    }
+                }
+            }
+        }
+    }
+    // client configurations built by the legacy constructor and without an expected name
+    for min13 in [false, true] {
+        for self_signed in [false, true] {
+            for peer in [PeerVersions::Tls12Only, PeerVersions::Tls13Only] {
+                for cert in [CertKind::Valid, CertKind::WrongAuthority, CertKind::WrongName, CertKind::Expired] {
+                    cells.push(Cell { min13, self_signed, authz: false, rodbus_is_server: false, peer, cert, spawn: false, ctor: 1 });
+                    if !self_signed {
+                        cells.push(Cell { min13, self_signed, authz: false, rodbus_is_server: false, peer, cert, spawn: false, ctor: 2 });
                     }
                 }
             }
